@@ -664,6 +664,7 @@ fn pick(inn: &mut Inner, me: usize, site: u16) -> usize {
 
 /// Directed schedule (see `Strat::Script`).
 fn script_pick(inn: &mut Inner, me: usize, site: u16) -> usize {
+    let mut reached_here = false;
     loop {
         if inn.script_pos >= inn.script.len() {
             // after the script: keep the current thread running, others follow when it finishes
@@ -679,7 +680,12 @@ fn script_pick(inn: &mut Inner, me: usize, site: u16) -> usize {
             continue;
         }
         if t == me && until == site {
+            if reached_here {
+                // the same (thread, point) twice in a row means its next occurrence: run on
+                return me;
+            }
             // reached: this thread stays parked right before executing `site`
+            reached_here = true;
             inn.script_pos += 1;
             continue;
         }
